@@ -149,7 +149,7 @@ func (e *emitter) Emit(st scheduler.State) {
 }
 
 type result struct {
-	lock     *sync.Mutex // guards the per-job records while job bodies may still be running
+	lock             *sync.Mutex // guards the per-job records while job bodies may still be running
 	sc               *scenario
 	trace            []string
 	starts           [][]int64 // per job: start stamps
@@ -1158,6 +1158,114 @@ func runOwnCtx(c *ownCtxCase) (fails []string, info string) {
 	return fails, fmt.Sprintf("ownctx N=%d jobs=%d pre=%d", c.N, n, wantCtx)
 }
 
+// ---------------------------------------------------------------- very large fan-in (C01)
+
+// runBigFan: one job depending on `fan` jobs (more than 2^16) that are all still unfinished when it
+// is enqueued — the shape cff.Slice + cff.SliceEnd produces for a large slice. The dependent must
+// start exactly once, after every dependency has ended.
+func runBigFan(fan, n int) (fails []string) {
+	sched := (scheduler.Config{Concurrency: n}).New()
+	bg := context.Background()
+	release := make(chan struct{})
+	var ended int64
+	deps := make([]*scheduler.ScheduledJob, fan)
+	for i := 0; i < fan; i++ {
+		deps[i] = sched.Enqueue(bg, scheduler.Job{Run: func(context.Context) error {
+			<-release
+			atomic.AddInt64(&ended, 1)
+			return nil
+		}})
+	}
+	var starts int32
+	var seenAtStart int64 = -1
+	sched.Enqueue(bg, scheduler.Job{Dependencies: deps, Run: func(context.Context) error {
+		if atomic.AddInt32(&starts, 1) == 1 {
+			atomic.StoreInt64(&seenAtStart, atomic.LoadInt64(&ended))
+		}
+		return nil
+	}})
+	time.Sleep(20 * time.Millisecond) // let the loop register the dependent while its dependencies are unfinished
+	close(release)
+	done := make(chan error, 1)
+	go func() { done <- sched.Wait(bg) }()
+	select {
+	case err := <-done:
+		if err != nil {
+			fails = append(fails, fmt.Sprintf("fan-in %d: Wait returned %v", fan, err))
+		}
+	case <-time.After(60 * time.Second):
+		atomic.AddInt32(&hangs, 1)
+		return []string{fmt.Sprintf("fan-in %d: Wait did not return within 60s", fan)}
+	}
+	if st := atomic.LoadInt32(&starts); st != 1 {
+		fails = append(fails, fmt.Sprintf("fan-in %d: the dependent job started %d times", fan, st))
+	}
+	if seen := atomic.LoadInt64(&seenAtStart); seen != int64(fan) {
+		fails = append(fails, fmt.Sprintf("fan-in %d: the dependent job started when only %d of its dependencies had ended", fan, seen))
+	}
+	return fails
+}
+
+// ---------------------------------------------------------------- slow state emitter (C05)
+
+type slowEmitter struct {
+	d time.Duration
+	n int64
+}
+
+func (e *slowEmitter) Emit(scheduler.State) {
+	atomic.AddInt64(&e.n, 1)
+	time.Sleep(e.d)
+}
+
+// runSlowEmitter: an Emitter whose Emit takes longer than the flush period. Reporting may delay the
+// scheduler but must not keep it from making progress: every Enqueue and Wait must return.
+func runSlowEmitter(n, jobs int, period, emitTakes time.Duration, coe bool) (fails []string) {
+	em := &slowEmitter{d: emitTakes}
+	sched := (scheduler.Config{Concurrency: n, Emitter: em, StateFlushFrequency: period, ContinueOnError: coe}).New()
+	bg := context.Background()
+	stage := int32(0)
+	done := make(chan error, 1)
+	var ran int32
+	go func() {
+		var prev *scheduler.ScheduledJob
+		for i := 0; i < jobs; i++ {
+			atomic.StoreInt32(&stage, int32(i+1))
+			var deps []*scheduler.ScheduledJob
+			if prev != nil && i%2 == 1 {
+				deps = []*scheduler.ScheduledJob{prev}
+			}
+			prev = sched.Enqueue(bg, scheduler.Job{Dependencies: deps, Run: func(context.Context) error {
+				atomic.AddInt32(&ran, 1)
+				time.Sleep(2 * period)
+				return nil
+			}})
+		}
+		atomic.StoreInt32(&stage, -1)
+		done <- sched.Wait(bg)
+	}()
+	budget := 10*time.Second + time.Duration(jobs)*(emitTakes+4*period)*8
+	select {
+	case err := <-done:
+		if err != nil {
+			fails = append(fails, fmt.Sprintf("slow emitter: Wait returned %v", err))
+		}
+		if int(atomic.LoadInt32(&ran)) != jobs {
+			fails = append(fails, fmt.Sprintf("slow emitter: %d of %d jobs ran", ran, jobs))
+		}
+	case <-time.After(budget):
+		atomic.AddInt32(&hangs, 1)
+		st := atomic.LoadInt32(&stage)
+		where := "Wait"
+		if st > 0 {
+			where = fmt.Sprintf("Enqueue %d", st)
+		}
+		fails = append(fails, fmt.Sprintf("slow emitter (period %v, Emit takes %v, N=%d): the caller is still in %s after %v; %d of %d jobs ran, %d reports emitted",
+			period, emitTakes, n, where, budget, atomic.LoadInt32(&ran), jobs, atomic.LoadInt64(&em.n)))
+	}
+	return fails
+}
+
 // ---------------------------------------------------------------- main
 
 func parseScenario(lines []string) (*scenario, error) {
@@ -1349,6 +1457,45 @@ func main() {
 				baseG = countSchedGoroutines()
 			}
 			stats["ownctx"]++
+		}
+		if *capacity > 0 {
+			type se struct {
+				n, jobs       int
+				period, takes time.Duration
+				coe           bool
+			}
+			cases := []se{{2, 5, time.Millisecond, 3 * time.Millisecond, false}, {1, 4, 2 * time.Millisecond, 2 * time.Millisecond, true}}
+			if *capacity > 100 {
+				cases = append(cases, se{4, 12, time.Millisecond, 5 * time.Millisecond, true}, se{3, 6, 100 * time.Millisecond, 150 * time.Millisecond, false})
+			}
+			for i, c := range cases {
+				fails := runSlowEmitter(c.n, c.jobs, c.period, c.takes, c.coe)
+				fmt.Fprintf(w, "cap %d slowemitter N=%d jobs=%d capseed=%d capcount=%d\n", 300000+i, c.n, c.jobs, *seed, *capacity)
+				if len(fails) == 0 {
+					fmt.Fprintf(w, "O C05 ok\n")
+				} else {
+					fmt.Fprintf(w, "O C05 FAIL %s\n", strings.Join(fails, " ;; "))
+					stats["fail.C05"]++
+				}
+				stats["slowemitter"]++
+			}
+		}
+		if *capacity > 0 {
+			fans := []int{1<<16 + 1000}
+			if *capacity > 100 {
+				fans = append(fans, 1<<16, 1<<17+3)
+			}
+			for i, fan := range fans {
+				fails := runBigFan(fan, 2+i)
+				fmt.Fprintf(w, "cap %d bigfan fan=%d capseed=%d capcount=%d\n", 200000+i, fan, *seed, *capacity)
+				if len(fails) == 0 {
+					fmt.Fprintf(w, "O C01 ok\n")
+				} else {
+					fmt.Fprintf(w, "O C01 FAIL %s\n", strings.Join(fails, " ;; "))
+					stats["fail.C01"]++
+				}
+				stats["bigfan"]++
+			}
 		}
 		for _, cc := range genCapacity(*capacity, rng) {
 			if atomic.LoadInt32(&hangs) >= 3 || atomic.LoadInt32(&leakBatches) >= 2 {
